@@ -4,7 +4,7 @@ import numpy as np, scipy.sparse as sp
 from fractions import Fraction
 from sklearn.exceptions import NotFittedError
 from vp.coqrun import fl, zlist, flist, clist, parse_zlist
-from vp import srcparams
+from vp import srcparams, link
 from vp.common import REPO
 import umap, umap.umap_ as U
 from c16 import canon, coo_term, same_bits, par_eval
@@ -311,6 +311,92 @@ def error_cases(ctx, rng, npr):
                 ctx.diff(desc, "operator pre-check: model decision %d, implementation %d" % (c, code))
 
 
+# translation tie (harness/vp/link.py, module "sparse_sset"): function -> link theorem of coq/link/L_sset.v
+LINKED = {"general_sset_union": "src_general_sset_union_eq", "general_sset_intersection": "src_general_sset_intersection_eq"}
+# corollaries of coq/link/K_sset.v: statements of P_C18 / T_combine restated about the translated source
+LINK_COROLLARIES = ("C18_src_union_comm", "C18_src_union_values", "C18_src_union_kernel", "C18_src_intersection_kernel",
+                    "C18_src_complement_kernel", "C18_src_kernel_nonneg", "C18_src_intersection_defaults", "C18_src_mul_kernel", "C18_src_kernels_of_smat")
+
+
+def _rand_csr(rng, n, dup):
+    """random CSR arrays of an n x n matrix with values in (0,1]; `dup`: columns drawn with replacement and left unsorted (a row
+    may store a column twice: the kernels then read the LAST stored value)"""
+    indptr, indices, data = [0], [], []
+    for _ in range(n):
+        k = rng.randrange(0, n + 1) if rng.random() < 0.85 else 0
+        cols = [rng.randrange(n) for _ in range(k)] if dup else rng.sample(range(n), k)
+        indices += cols
+        data += [rng.choice([1.0, 0.5, rng.uniform(1e-9, 1e-7), rng.random() or 1.0, rng.random() or 1.0]) for _ in cols]
+        indptr.append(len(indices))
+    if not data:                                  # data.min() of an empty array raises: keep one stored entry
+        indptr, indices, data = [0] + [1] * n, [rng.randrange(n)], [rng.random() or 1.0]
+    return indptr, indices, data
+
+
+def src_eval(ctx, lres, rng):
+    """evaluation leg of the translation tie: the translated kernels (Src_sparse_sset.v, binary64) against the numba kernels of the
+    current source, called with float64 arrays, on random CSR operands and skeletons (coq/link/E_sset.v)"""
+    import umap.sparse as S
+    if not (lres.ok and all((lres.translated.get(f) or {}).get("ok") for f in LINKED)) or any("E_sset" in e for e in lres.errors):
+        ctx.notes.append("translated sset kernels not evaluated (translation / E_sset.v unavailable)")
+        return
+    rows, cases = [], []
+    ncase = 12 if ctx.tier == "quick" else 60
+    for c in range(ncase):
+        n = rng.randrange(2, 8)
+        dup = c % 3 == 2
+        A, B = _rand_csr(rng, n, dup), _rand_csr(rng, n, dup)
+        kind = ("union", "inter", "compl")[c % 3] if c >= 3 else ("union", "inter", "compl")[c]
+        pos = set()
+        for (ip, ix, _), use in ((A, True), (B, kind != "compl")):
+            if use:
+                pos |= {(i, ix[k]) for i in range(n) for k in range(ip[i], ip[i + 1])}
+        pos |= {(rng.randrange(n), rng.randrange(n)) for _ in range(2)}       # entries possibly stored in neither operand
+        skel = sorted(pos)
+        if rng.random() < 0.3:
+            rng.shuffle(skel)
+        row, col = [i for i, _ in skel], [j for _, j in skel]
+        val = [rng.choice([0.0, rng.random(), 2.0 * rng.random()]) for _ in skel]
+        w = rng.choice([0.5, 0.5, 0.25, 0.75, rng.uniform(0.05, 0.95)])
+        arrs = [np.array(A[0], dtype=np.int32), np.array(A[1], dtype=np.int32), np.array(A[2], dtype=np.float64),
+                np.array(B[0], dtype=np.int32), np.array(B[1], dtype=np.int32), np.array(B[2], dtype=np.float64),
+                np.array(row, dtype=np.int32), np.array(col, dtype=np.int32), np.array(val, dtype=np.float64)]
+        try:
+            if kind == "union":
+                S.general_sset_union(*arrs)
+            else:
+                S.general_sset_intersection(*arrs, kind == "compl", w)
+        except Exception as e:       # noqa
+            ctx.notes.append("src_eval: kernel call failed (%s: %s)" % (type(e).__name__, str(e)[:80]))
+            continue
+        out = [float(x) for x in arrs[8]]
+        case = {"kind": kind, "n": n, "A": A, "B": B, "row": row, "col": col, "val": val, "w": w, "out": out}
+        ctx.tag(("src_eval", c, kind, n, tuple(row), tuple(col)), ["translated-kernel:" + kind] + (["duplicate-columns"] if dup else []))
+        ctx.count("src_eval:" + kind)
+        csr = lambda X: "(%s, %s, %s)" % (zlist(X[0]), zlist(X[1]), flist(X[2]))
+        if kind == "union":
+            rows.append("verdict_src_union %s %s %s %s %s %s" % (csr(A), csr(B), zlist(row), zlist(col), flist(val), flist(out)))
+        else:
+            rows.append("verdict_src_intersection %s %s %s %s %s %s %s %s %s %s" % (
+                fl(1e-9), fl(1e-300), csr(A), csr(B), zlist(row), zlist(col), flist(val), "true" if kind == "compl" else "false", fl(w), flist(out)))
+        cases.append(case)
+    if not rows:
+        return
+    text = ("From Coq Require Import List ZArith Bool PrimFloat. From UV Require Import Num FNum PyPrim.\nFrom UVS Require Import E_sset.\n"
+            "Import ListNotations. Open Scope float_scope.\nEval vm_compute in %s.\n" % clist(rows))
+    blocks = link.coq_eval(ctx, lres, "cases_C18_src", text, what="translated sset kernels (binary64) vs the numba kernels")
+    if blocks is None:
+        return
+    v = parse_zlist(blocks[0])
+    if len(v) != len(cases):
+        ctx.broken.append("C18 translated-kernel verdict list has %d entries for %d cases" % (len(v), len(cases)))
+        return
+    for case, code in zip(cases, v):
+        ctx.traces += 1
+        if code != -1:
+            ctx.diff(case, "translated %s kernel vs implementation: %s" % (case["kind"], "lengths differ" if code == -3 else "result_val[%d] differs" % code))
+
+
 def _phase(ctx, name, t0):
     import time
     ctx.extra.setdefault("phase_s", {})[name] = round(time.time() - t0, 1)
@@ -321,6 +407,23 @@ def run(ctx):
     import time
     t0 = time.time()
     ctx.check_proofs(["prop/P_C18.v"])
+    # translation tie: reprocess_row / reset_local_metrics regenerated from the current source (py2coq); link theorems
+    # (coq/link/L_reprocess.v, over R): reprocess_row = map (p -> p^e) with e the model's bisect_exp on psum against log2(k), for every
+    # row, k, n_iters and every pinf > 2^n_iters; reset_local_metrics = the per-CSR-row map of reprocess_row (defaults k, n_iters) for
+    # every well-formed indptr / data pair
+    link.check(ctx, "umap_reprocess", {"reprocess_row": "src_reprocess_row_eq", "reset_local_metrics": "src_reset_local_metrics_eq"})
+    # translation tie: Gallina regenerated from the current umap/sparse.py (general_sset_union, general_sset_intersection); the link
+    # theorems of coq/link/L_sset.v (translated kernel = CSR-level model coq/model/M_csr.v, over every Num, for every skeleton over
+    # well-formed indptr arrays) are re-checked against it
+    lres = link.check(ctx, "sparse_sset", LINKED)
+    for thm in LINK_COROLLARIES:
+        ob = "link:sparse_sset:" + thm
+        ctx.obligations.append(ob)
+        bad = [a for a in lres.axioms.get(thm, []) if a not in link.coqrun.ALLOWED_AXIOMS and not ctx._primitive(a)]
+        if lres.theorems.get(thm) is True and not bad:
+            ctx.discharged.append(ob)
+        else:
+            ctx.broken.append("link[sparse_sset]: corollary %s %s" % (thm, ("uses axioms %s" % bad) if bad else (lres.theorems.get(thm) or "is missing")))
     t0 = _phase(ctx, "proofs", t0)
     rng = ctx.rng
     npr = np.random.RandomState(rng.randrange(2 ** 31))
@@ -383,7 +486,9 @@ def run(ctx):
             ctx.traces += 1
             if code != -1:
                 ctx.diff(cases[s + off], names.get(code, "code %d" % code))
-    _phase(ctx, "coq_correspondence", t0)
+    t0 = _phase(ctx, "coq_correspondence", t0)
+    src_eval(ctx, lres, rng)          # last: the random stream of everything above is unchanged by it
+    _phase(ctx, "translated_kernels_eval", t0)
     ctx.notes.append("that the 32-step search of reprocess_row reaches total log2(15) is not claimed by the property and not proved; "
                      "C18_exponent bounds the exponent in [2^-n_iters, 2^n_iters] (positive, finite)")
     ctx.notes.append("the combined graph is compared entry by entry through the whole pipeline only because the float32 storage rounding of every "
